@@ -133,7 +133,11 @@ class LenaSplit(object):
             if hasattr(seq, "_set_context"):
                 # can raise LenaKeyError if some context
                 # formatting keys are missing.
-                seq._set_context(deepcopy(context))
+                # Other sequences must receive their context anyway.
+                try:
+                    seq._set_context(deepcopy(context))
+                except exceptions.LenaKeyError:
+                    pass
         # we don't track whether all contexts could be set here,
         # because otherwise an exception will raise in _get_context.
 
